@@ -129,6 +129,20 @@ def deep_fingerprint():
             fp['{}.{}'.format(cname, reg)] = canon.short(items)
         own = sorted(k for k in vars(cls) if not k.startswith('__'))
         fp[cname + '.__dict__'] = canon.short(own)
+        # every method the class resolves to, by defining class and source position
+        # (a monkey-patched PyYAML method changes what yaml.safe_load does)
+        meths = []
+        for k in cls.__mro__:
+            if k is object:
+                continue
+            for name, v in vars(k).items():
+                f = getattr(v, '__func__', v)
+                code = getattr(f, '__code__', None)
+                if code is not None:
+                    meths.append([k.__module__, k.__qualname__, name,
+                                  os.path.basename(code.co_filename), code.co_firstlineno])
+        meths.sort()
+        fp[cname + '.methods'] = canon.short(meths)
     L = yatiml.loader.Loader
     fp['Loader.statics'] = canon.short([repr(L._registered_classes), repr(L._additional_classes),
                                         repr(L.document_type)])
@@ -140,6 +154,13 @@ def deep_fingerprint():
         mod.append([name, _callable_name(f), getattr(getattr(f, '__code__', None), 'co_firstlineno', None)])
     fp['yaml.module'] = canon.short(mod)
     return fp
+
+
+CHILD_RECURSION_LIMIT = 1200
+
+
+def process_globals():
+    return [sys.getrecursionlimit(), repr(sys.getswitchinterval())]
 
 
 def cheap_fingerprint_fn():
@@ -438,6 +459,8 @@ def run_plan(plan, pristine_fp, yatiml_dir, yaml_dir, profile=False):
     """Executed in a forked child of the pristine worker.  Returns a JSON dict."""
     from sim import sched
     gc.disable()
+    # (Hypothesis raises the limit while it runs a test; a replay has no Hypothesis)
+    sys.setrecursionlimit(CHILD_RECURSION_LIMIT)
     mount = simio.Mount()
     try:
         with mount:
@@ -452,6 +475,7 @@ def _run_plan(plan, pristine_fp, yatiml_dir, yaml_dir, mount, sched, profile=Fal
     history = []
     cheap = cheap_fingerprint_fn()
     cheap0 = cheap()
+    proc0 = process_globals()
     snaps = {}
     for uid, ns in env.ns.items():
         for name, cls in list(ns.classes.items()) + [('Alien', ns.alien)]:
@@ -542,6 +566,8 @@ def _run_plan(plan, pristine_fp, yatiml_dir, yaml_dir, mount, sched, profile=Fal
     # ---- quiescent oracles
     fp = deep_fingerprint()
     changed = sorted(k for k in fp if fp[k] != pristine_fp.get(k))
+    if process_globals() != proc0:
+        changed.append('process globals (recursion limit, switch interval)')
     if changed:
         violations.append({
             'oracle': 'PyYAML (and the yatiml base Loader/Dumper) registries equal the import-time state',
@@ -606,6 +632,7 @@ def reference_request(plan, fnops, rec):
 
 def run_reference(req):
     gc.disable()
+    sys.setrecursionlimit(CHILD_RECURSION_LIMIT)
     mount = simio.Mount()
     try:
         with mount:
